@@ -81,6 +81,7 @@ type mgrMon struct {
 
 	mu     sync.Mutex
 	starts []startEv
+	pendTs []int64 // stamps of task.pend (taken on the delayed-decrement goroutines, never on a body's path)
 }
 
 const silenceTol = int64(20 * time.Microsecond)
@@ -98,6 +99,10 @@ func hookHandler(name string, args ...interface{}) {
 	case "task.pbegin":
 		m.pbeginA.Add(1)
 	case "task.pend":
+		t := now()
+		m.mu.Lock()
+		m.pendTs = append(m.pendTs, t)
+		m.mu.Unlock()
 		m.pendEmitted.Add(1)
 	case "task.cancel":
 		m.cancels.Add(1)
@@ -361,11 +366,46 @@ func analyze(r *vf.Run, sc *scenario) {
 	}
 	r.Count("execution_pairs_of_one_invocation_compared", pairs)
 
-	if retried > 0 && cancelled > 0 {
-		r.NonTrivial(sc.desc)
+	if sc.family == famMixed && retried > 0 && cancelled > 0 {
+		ntMixed = append(ntMixed, sc.desc)
 		r.Count("scenarios_with_cancel_and_retry", 1)
 	}
-	if sc.idx < 3 {
+	if sc.family == famLastDone {
+		// non-trivial: in some round invocations were entered on both sides of the announcement
+		// of that round's last decrement, i.e. some invoker had to be woken by that very broadcast
+		m.mu.Lock()
+		pendTs := append([]int64(nil), m.pendTs...)
+		m.mu.Unlock()
+		sort.Slice(pendTs, func(i, j int) bool { return pendTs[i] < pendTs[j] })
+		cum, straddling := 0, 0
+		for rd, b := range sc.clients[0].bursts {
+			cum += b.N
+			if cum > len(pendTs) {
+				break
+			}
+			lp := pendTs[cum-1]
+			before, after := 0, 0
+			for _, is := range sc.invokers {
+				if is.invs[rd].call < lp {
+					before++
+				} else {
+					after++
+				}
+			}
+			r.Count("lastdone_rounds", 1)
+			r.Count("lastdone_invocations_entered_before_last_decrement", before)
+			r.Count("lastdone_invocations_entered_after_last_decrement", after)
+			if before > 0 && after > 0 {
+				straddling++
+			}
+		}
+		r.Count("lastdone_scenarios", 1)
+		r.Count("lastdone_rounds_straddling_the_last_decrement", straddling)
+		if straddling > 0 {
+			ntLastDone = append(ntLastDone, sc.desc)
+		}
+	}
+	if sc.idx < 3 || sc.idx == lastDoneBase {
 		r.Sample(map[string]any{"case": sc.idx, "scenario": sc.desc, "start_decisions": len(starts), "bodies": bodies,
 			"cancelled_bodies": cancelled, "invocations_retried": retried, "max_running_together": maxRun,
 			"pbegin": m.pbeginA.Load(), "pend": m.pendEmitted.Load(), "cancel_hooks": m.cancels.Load()})
